@@ -48,6 +48,10 @@ def to_wire(h):
             out.append("S %d %d %d %s" % (op[1], op[2], op[3], op[4]))
         elif t == "N":
             out.append("N %d %d" % (op[1], op[2]))
+        elif t == "T":
+            out.append("T %d %d %d %d %s" % (op[1], op[2], op[3], op[4], op[5]))
+        elif t == "U":
+            out.append("U %d %d %d %d" % (op[1], op[2], op[3], op[4]))
         else:
             raise ValueError(op)
     return ";".join(out)
@@ -81,6 +85,10 @@ def from_wire(s):
             h.append(("S", int(t[1]), int(t[2]), int(t[3]), t[4]))
         elif t[0] == "N":
             h.append(("N", int(t[1]), int(t[2])))
+        elif t[0] == "T":
+            h.append(("T", int(t[1]), int(t[2]), int(t[3]), int(t[4]), t[5]))
+        elif t[0] == "U":
+            h.append(("U", int(t[1]), int(t[2]), int(t[3]), int(t[4])))
     return h
 
 
@@ -152,14 +160,23 @@ def to_js(h):
             sites.append(("s", op[1], op[2]))
         elif op[0] == "N" and ("n", op[1], op[2]) not in sites:
             sites.append(("n", op[1], op[2]))
+        elif op[0] == "T" and ("t", op[1], op[2]) not in sites:
+            sites.append(("t", op[1], op[2]))
+        elif op[0] == "U" and ("u", op[1], op[2]) not in sites:
+            sites.append(("u", op[1], op[2]))
     L = [PRELUDE]
     for kd, s, k in sites:
         if kd == "g":
             L.append("function g_%d_%d(o) { return o.p%d; }" % (s, k, k))
         elif kd == "s":
             L.append("function s_%d_%d(o, v) { \"use strict\"; o.p%d = v; }" % (s, k, k))
-        else:
+        elif kd == "n":
             L.append("function n_%d_%d() { return p%d; }" % (s, k, k))
+        elif kd == "t":
+            # one method = one access site; its home object's prototype (the `super` object) is set before every call
+            L.append("var HS_%d_%d = { m(v) { \"use strict\"; super.p%d = v; } };" % (s, k, k))
+        else:
+            L.append("var HG_%d_%d = { m() { return super.p%d; } };" % (s, k, k))
     bodies = {}
     for op in h:
         if op[0] == "B":
@@ -189,6 +206,12 @@ def to_js(h):
             body = "s_%d_%d(O[%d], %s); r = \"b:1\";" % (op[1], op[2], op[3], js_val(op[4]))
         elif t == "N":
             body = "r = \"v:\" + fmt(n_%d_%d());" % (op[1], op[2])
+        elif t == "T":
+            body = "Object.setPrototypeOf(HS_%d_%d, O[%d]); HS_%d_%d.m.call(O[%d], %s); r = \"b:1\";" % (
+                op[1], op[2], op[3], op[1], op[2], op[4], js_val(op[5]))
+        elif t == "U":
+            body = "Object.setPrototypeOf(HG_%d_%d, O[%d]); r = \"v:\" + fmt(HG_%d_%d.m.call(O[%d]));" % (
+                op[1], op[2], op[3], op[1], op[2], op[4])
         elif t == "M":
             body = "r = dump(O[%d]);" % op[1]
         else:
@@ -601,9 +624,34 @@ class Gen:
         if recv != holder:
             self.emit(("M", recv))
 
+    def frag_super(self):
+        """`super.k = v` / `super.k` sites (SetPropertyByNameWithThis / GetPropertyByNameWithThis): the cache is keyed by the shape of the
+        super object, the receiver is `this`; warmed with one receiver (often the super object itself), then switched."""
+        r = self.rng
+        k = r.randrange(NKEYS)
+        top = self.alloc(proto=r.choice([None, None, 0]), uniq=r.random() < 0.2)
+        sup = self.alloc(proto=top, uniq=r.random() < 0.2) if r.random() < 0.5 else top
+        where = r.choice([sup, top])
+        self.define(where, k, self.full_data(w=True) if r.random() < 0.7 else self.full_acc())
+        others = [self.alloc(proto=r.choice([None, sup, top]), uniq=r.random() < 0.2) for _ in range(r.choice([1, 2]))]
+        s = 10 + r.randrange(2)
+        kind = r.choice(["T", "T", "T", "U"])
+        warm = r.choice([sup, sup, where, others[0]])
+        for _ in range(r.choice([2, 3])):
+            self.emit(("T", s, k, sup, warm, self.val()) if kind == "T" else ("U", s, k, sup, warm))
+        if r.random() < 0.3:
+            self.random_op()
+        for _ in range(r.choice([2, 3, 4])):
+            recv = r.choice(others + [sup, top, warm])
+            self.emit(("T", s, k, sup, recv, self.val()) if kind == "T" else ("U", s, k, sup, recv))
+            if r.random() < 0.3:
+                self.get(recv, k)
+        for o in sorted(set([top, sup] + others)):
+            self.emit(("M", o))
+
     def build(self):
         r = self.rng
-        frags = [self.frag_poly, self.frag_proto, self.frag_proto, self.frag_global, self.frag_own, self.frag_deep, self.frag_selfmod]
+        frags = [self.frag_poly, self.frag_proto, self.frag_proto, self.frag_global, self.frag_own, self.frag_deep, self.frag_selfmod, self.frag_super]
         while len(self.h) < self.size:
             m = r.random()
             if m < 0.55:
